@@ -59,6 +59,18 @@ def run_case(ctx, name, params):
                 values.append(r.sample([round(r.uniform(-50, 50), 3) for _ in range(12)] + list(range(-3, 4)), k)
                               if r.random() < 0.7 else sorted(r.sample(range(-20, 20), k)))
                 values[-1] = list(dict.fromkeys(values[-1]))
+            kind_ = r.choice(["numbers", "numbers", "bigint", "strings", "mixed", "bools"])
+            if kind_ == "bigint":       # exact integers beyond 2**53 next to float levels
+                values[0] = [2 ** 53 + k_ for k_ in range(len(values[0]))]
+                if n > 1:
+                    values[1] = [x + 0.5 for x in range(len(values[1]))]
+            elif kind_ == "strings":    # categorical levels
+                values[r.randrange(n)] = ["low", "mid", "high", "max", "min"][:max(1, len(values[0]))]
+            elif kind_ == "mixed":
+                values[r.randrange(n)] = [0, "a", 2.5, None, (1, 2)][:r.randint(1, 5)]
+            elif kind_ == "bools":
+                values[r.randrange(n)] = [False, True]
+            ctx.count("fullfact_level_kind_" + kind_)
             g = operators.FullFactorLevelsGenerator(P(bxs))
             g.init([list(v) for v in values])
             levels = values
@@ -73,8 +85,9 @@ def run_case(ctx, name, params):
             ctx.violation("fullfact/exception", "generate raised %r" % e, wit())
             return
         ctx.count("fullfact_designs")
-        exp = collections.Counter(itertools.product(*levels))
-        got = collections.Counter(tuple(v) for v in vecs)
+        tk = lambda row: tuple((type(x).__name__ if not isinstance(x, (int, float)) or isinstance(x, bool) else "num", x) for x in row)
+        exp = collections.Counter(tk(row) for row in itertools.product(*levels))
+        got = collections.Counter(tk(v) for v in vecs)
         if got != exp:
             miss = list((exp - got).keys())[:3]
             extra = list((got - exp).keys())[:3]
@@ -89,6 +102,8 @@ def run_case(ctx, name, params):
         r = ctx.rng("pb", params["seed"])
         k = params["k"]
         bxs = gen.boxes(r, k)
+        if r.random() < 0.15:
+            bxs[r.randrange(k)] = [2 ** 53 + 1, 2 ** 53 + 3]      # exact integer bounds that a float cannot hold
         g = operators.PlackettBurmanGenerator(P(bxs))
         wit = lambda: {"k": k, "bounds": bxs[:4]}
         try:
